@@ -100,6 +100,48 @@ theorem hp_ext_setVM {w : World} {h' : Heap} (hx : HeapExt w.heap h') (i : Nat) 
   · exact Or.inl (mem_scopesOf.mpr ⟨vm, hm, hav⟩)
   · subst he; exact h a hav
 
+/-- like `HStep`, except that the objects at addresses satisfying `M` may change too (a mutator changes its receiver) -/
+structure HStepM (M : Nat → Prop) (w w' : World) : Prop where
+  keep : ∀ a, a < w.heap.size → a ∉ topsOf w → ¬ M a → w'.heap.get? a = w.heap.get? a
+  scopes : ∀ a, a ∈ scopesOf w' → a ∈ scopesOf w ∨ w.heap.size ≤ a
+  size : w.heap.size ≤ w'.heap.size
+
+theorem HStep.toM {M : Nat → Prop} {w w' : World} (h : HStep w w') : HStepM M w w' :=
+  ⟨fun a ha hn _ => h.keep a ha hn, h.scopes, h.size⟩
+
+theorem HStepM.toHStep {w w' : World} (h : HStepM (fun _ => False) w w') : HStep w w' :=
+  ⟨fun a ha hn => h.keep a ha hn (fun f => f), h.scopes, h.size⟩
+
+/-- the heap grows and changes only at addresses satisfying `M` -/
+def HeapMod (M : Nat → Prop) (h h' : Heap) : Prop :=
+  h.size ≤ h'.size ∧ ∀ a, a < h.size → ¬ M a → h'.get? a = h.get? a
+
+theorem heapMod_of_ext {M : Nat → Prop} {h h' : Heap} (hx : HeapExt h h') : HeapMod M h h' :=
+  ⟨hx.1, fun a ha _ => hx.2 a ha⟩
+
+theorem HeapMod.trans {M : Nat → Prop} {a b c : Heap} (h1 : HeapMod M a b) (h2 : HeapMod M b c) : HeapMod M a c :=
+  ⟨Nat.le_trans h1.1 h2.1, fun x hx hm => by rw [h2.2 x (Nat.lt_of_lt_of_le hx h1.1) hm, h1.2 x hx hm]⟩
+
+theorem hpM_withB {M : Nat → Prop} {w : World} {s : BState} (hx : HeapMod M w.heap s.heap) : HStepM M w (w.withB s) :=
+  ⟨fun a ha _ hm => hx.2 a ha hm, fun _ h => Or.inl h, hx.1⟩
+
+theorem hpM_heap {M : Nat → Prop} {w : World} {h' : Heap} (hx : HeapMod M w.heap h') : HStepM M w { w with heap := h' } :=
+  ⟨fun a ha _ hm => hx.2 a ha hm, fun _ h => Or.inl h, hx.1⟩
+
+/-- a step on the heap part followed by a step: the first changes the heap only (same VM states) -/
+theorem HStepM.after_heap {M : Nat → Prop} {w : World} {h' : Heap} {w'' : World} (hx : HeapMod M w.heap h')
+    (h2 : HStepM M { w with heap := h' } w'') : HStepM M w w'' := by
+  refine ⟨?_, ?_, Nat.le_trans hx.1 h2.size⟩
+  · intro a ha hn hm
+    rw [h2.keep a (Nat.lt_of_lt_of_le ha hx.1) hn hm]
+    exact hx.2 a ha hm
+  · intro a ha
+    rcases h2.scopes a ha with h | h
+    · exact Or.inl h
+    · exact Or.inr (Nat.le_trans hx.1 h)
+
+macro "mrefl" : tactic => `(tactic| first | exact HStep.refl _ | exact HStep.of_eq rfl rfl | (refine HStep.toM ?_; first | exact HStep.refl _ | exact HStep.of_eq rfl rfl))
+
 macro "hrefl" : tactic => `(tactic| first | exact HStep.refl _ | exact HStep.of_eq rfl rfl)
 
 theorem alloc_hp (w : World) (o : HObj) : HStep w { w with heap := (w.heap.alloc o).1 } :=
@@ -142,7 +184,7 @@ theorem callClosure_hp (ps : List Op) (body : Op) (vmi : Nat) (args : List Val) 
 /-! ### the sweep, under the generic invariant -/
 
 variable {Pc : List Op → Op → Nat → Prop} {Pb : String → Prop} {Pq : String → Prop} {Pr : Nat → Prop}
-variable {Po : Op → Prop} {Pn : Name → Prop} {Psh : Prop}
+variable {Po : Op → Prop} {Pn : Name → Prop} {Psh : Prop} {M : Nat → Prop}
 local notation "NP" => NPg Pc Pb Pq Pr
 local notation "AllNP" => AllNPg Pc Pb Pq Pr
 local notation "HeapNP" => HeapNPg Pc Pb Pq Pr
@@ -156,14 +198,14 @@ local notation "CtlP" => CtlPg Po
 local notation "CoreNP" => CoreNPg Pc Pb Pq Pr Po Pn Psh
 local notation "CorePD" => CorePDg Pc Pb Pq Pr Po Pn Psh
 
-variable (Pc Pb Pq Pr) in
-/-- an iteration continuation that preserves the heap in the sense of `HStep` -/
+variable (Pc Pb Pq Pr M) in
+/-- an iteration continuation that preserves the heap in the sense of `HStepM` -/
 def IterHPg (it : IterFn) : Prop :=
-  ∀ kind g src acc k w, KindP PD kind → PD g → SrcP PD src → AllPD acc → WorldPD w → HStep w (it kind g src acc k w).w
-local notation "IterHP" => IterHPg Pc Pb Pq Pr
+  ∀ kind g src acc k w, KindP PD kind → PD g → SrcP PD src → AllPD acc → WorldPD w → HStepM M w (it kind g src acc k w).w
+local notation "IterHP" => IterHPg Pc Pb Pq Pr M
 
 theorem callMap_hp (it : IterFn) (hit : IterHP it) (args : List Val) (k : List Frame) (w : World) (ha : AllPD args)
-    (hw : WorldPD w) : HStep w (callMap it args k w).w := by
+    (hw : WorldPD w) : HStepM M w (callMap it args k w).w := by
   unfold callMap
   split
   · rename_i c g
@@ -184,47 +226,47 @@ theorem callMap_hp (it : IterFn) (hit : IterHP it) (args : List Val) (k : List F
         rcases hv with e1 | e1 <;> rw [e1]
         · exact (hw.heap.1 _ _ hgk kv hkv).1
         · exact (hw.heap.1 _ _ hgk kv hkv).2
-      · hrefl
-    · hrefl
-    · hrefl
-  · hrefl
+      · mrefl
+    · mrefl
+    · mrefl
+  · mrefl
 
 
 theorem callFilter_hp (it : IterFn) (hit : IterHP it) (args : List Val) (k : List Frame) (w : World) (ha : AllPD args)
-    (hw : WorldPD w) : HStep w (callFilter it args k w).w := by
+    (hw : WorldPD w) : HStepM M w (callFilter it args k w).w := by
   unfold callFilter
   split
   · split
     · split
       · rename_i xs hg
-        exact alloc_hp w _
-      · hrefl
-    · hrefl
-    · hrefl
+        exact HStep.toM (alloc_hp w _)
+      · mrefl
+    · mrefl
+    · mrefl
   · rename_i c g _
     have hg : PD g := ha g (by simp)
     split
     · split
       · exact hit _ _ _ _ _ _ trivial hg trivial allPD_nil hw
-      · hrefl
-    · hrefl
-    · hrefl
-  · hrefl
+      · mrefl
+    · mrefl
+    · mrefl
+  · mrefl
 
 
 theorem callReduce_hp (it : IterFn) (hit : IterHP it) (args : List Val) (k : List Frame) (w : World) (ha : AllPD args)
-    (hw : WorldPD w) : HStep w (callReduce it args k w).w := by
+    (hw : WorldPD w) : HStepM M w (callReduce it args k w).w := by
   unfold callReduce
   split
   · rename_i c g
     have hg : PD g := ha g (by simp)
     have hc : PD c := ha c (by simp)
     split
-    · hrefl
+    · mrefl
     · split
-      · hrefl
-      · hrefl
-      · hrefl
+      · mrefl
+      · mrefl
+      · mrefl
       · rename_i x rest hi
         have hitems := iterItems_pd hw.heap hc hi
         refine hit _ _ _ _ _ _ trivial hg ?_ (allPD_cons (allPD_head hitems) allPD_nil) hw
@@ -238,25 +280,25 @@ theorem callReduce_hp (it : IterFn) (hit : IterHP it) (args : List Val) (k : Lis
           · trivial
           · exact hsnap
         · exact hsnap
-  · hrefl
+  · mrefl
 
 
 theorem callSorted_hp (it : IterFn) (hit : IterHP it) (args : List Val) (k : List Frame) (w : World) (ha : AllPD args)
-    (hw : WorldPD w) : HStep w (callSorted it args k w).w := by
+    (hw : WorldPD w) : HStepM M w (callSorted it args k w).w := by
   unfold callSorted
   split
   · rename_i c rest
     have hc : PD c := ha c (by simp)
     split
-    · hrefl
+    · mrefl
     · dsimp only
       have hkey : PD (rest.headD .none) := by
         cases rest with
         | nil => exact .none
         | cons x r => exact ha x (by simp)
       split
-      · hrefl
-      · hrefl
+      · mrefl
+      · mrefl
       · rename_i items rev hitems _
         have hip : AllPD items := by
           split at hitems
@@ -272,8 +314,8 @@ theorem callSorted_hp (it : IterFn) (hit : IterHP it) (args : List Val) (k : Lis
             · simp [U] at hitems
           · exact iterItems_pd hw.heap hc hitems
         split
-        · exact sortFinish_hp _ _ _ _ _ _
-        · hrefl
+        · exact HStep.toM (sortFinish_hp _ _ _ _ _ _)
+        · mrefl
         · split
           · refine hit _ _ _ _ _ _ hip hkey ?_ allPD_nil hw
             intro l hl v hv
@@ -289,13 +331,13 @@ theorem callSorted_hp (it : IterFn) (hit : IterHP it) (args : List Val) (k : Lis
               · simp at hv; rw [hv]; exact hpi
             · simp at hv; rw [hv]; exact hpi
           · split
-            · exact sortFinish_hp _ _ _ _ _ _
-            · hrefl
-  · hrefl
+            · exact HStep.toM (sortFinish_hp _ _ _ _ _ _)
+            · mrefl
+  · mrefl
 
 
 theorem callProbe_hp (args : List Val) (k : List Frame) (w : World) (ha : AllPD args) (hw : WorldPD w) :
-    HStep w (callProbe args k w).w := by
+    HStepM M w (callProbe args k w).w := by
   unfold callProbe
   split
   · rename_i a
@@ -305,54 +347,83 @@ theorem callProbe_hp (args : List Val) (k : List Frame) (w : World) (ha : AllPD 
       obtain ⟨p, hp, e⟩ := probe_lookup hact
       have := hw.probes p hp
       rw [e] at this
-      hrefl
-    · hrefl
-    · hrefl
-  · hrefl
+      mrefl
+    · mrefl
+    · mrefl
+  · mrefl
 
+
+variable (Pc Pb Pq Pr M) in
+/-- every table entry allowed as a value changes the heap only at addresses satisfying `M` -/
+def PureOKg : Prop :=
+  ∀ name args (w : World) v s, Pb name → AllPD args → WorldPD w → callPure name args w.bstate = .ok (v, s) →
+    HeapMod M w.heap s.heap
+local notation "PureOK" => PureOKg Pc Pb Pq Pr M
+
+variable (Pc Pb Pq Pr Po Pn Psh M) in
+/-- a compound assignment `n op= v`, resumed with its right-hand side, changes only top scopes and `M`-addresses -/
+def InplOKg : Prop :=
+  ∀ n sk vm v k (w : World), FrameP PD (.shortK n sk vm) → PD v → WorldPD w → HStepM M w (resume (.shortK n sk vm) v k w).w
+local notation "InplOK" => InplOKg Pc Pb Pq Pr Po Pn Psh M
+
+theorem ofBR_hpM (r : BR) (k : List Frame) (w : World) (h : ∀ v s, r = .ok (v, s) → HeapMod M w.heap s.heap) :
+    HStepM M w (ofBR r k w).w := by
+  unfold ofBR
+  split
+  · rename_i v s
+    exact hpM_withB (h v s rfl)
+  · mrefl
+
+/-- when no mutator is allowed as a value, the table changes nothing -/
+theorem pureOK_of_nonmut (hb : ∀ n, Pb n → n ∉ mutatorNames) : PureOKg Pc Pb Pq Pr M :=
+  fun name args w v s hn _ _ h => heapMod_of_ext (callPure_nonmutating name (hb name hn) args w.bstate v s h)
+
+/-- when no compound assignment is allowed, there is nothing to show -/
+theorem inplOK_of_not (hsh : ¬ Psh) : InplOKg Pc Pb Pq Pr Po Pn Psh M :=
+  fun _ _ _ _ _ _ hfr _ _ => absurd hfr.1 hsh
 
 /-- calling any function value that is not a mutator, and continuing any iteration, changes no existing non-scope object -/
-theorem call_hp (hb : ∀ n, Pb n → n ∉ mutatorNames) : ∀ (fuel : Nat),
-    (∀ f args k w, NP f → AllPD args → WorldPD w → HStep w (callVal fuel f args k w).w) ∧ IterHP (iterNext fuel) := by
+theorem call_hp (hb : PureOK) : ∀ (fuel : Nat),
+    (∀ f args k w, NP f → AllPD args → WorldPD w → HStepM M w (callVal fuel f args k w).w) ∧ IterHP (iterNext fuel) := by
   intro fuel
   induction fuel with
   | zero =>
-    exact ⟨fun _ _ k w _ _ _ => by rw [callVal]; hrefl, fun _ _ _ _ k w _ _ _ _ _ => by rw [iterNext]; hrefl⟩
+    exact ⟨fun _ _ k w _ _ _ => by rw [callVal]; mrefl, fun _ _ _ _ k w _ _ _ _ _ => by rw [iterNext]; mrefl⟩
   | succ fuel ih =>
     obtain ⟨ihc, ihi⟩ := ih
     constructor
     · intro f args k w hf ha hw
       unfold callVal
       split
-      · exact callClosure_hp _ _ _ _ _ _
+      · exact HStep.toM (callClosure_hp _ _ _ _ _ _)
       · rename_i name
-        have hname : name ∉ mutatorNames := by cases hf with | builtin h => exact hb _ h
+        have hname : Pb name := by cases hf with | builtin h => exact h
         split
         · exact callMap_hp _ ihi _ _ _ ha hw
         · split
-          · hrefl
+          · mrefl
           · split
             · exact callFilter_hp _ ihi _ _ _ ha hw
             · split
               · exact callReduce_hp _ ihi _ _ _ ha hw
               · split
                 · exact callSorted_hp _ ihi _ _ _ ha hw
-                · exact ofBR_hp _ _ _ (fun v s h => callPure_nonmutating name hname args w.bstate v s h)
+                · exact ofBR_hpM _ _ _ (fun v s h => hb name args w v s hname ha hw h)
       · split
         · exact callProbe_hp _ _ _ ha hw
         · split
           · split
             · rename_i g rest
               exact ihc _ _ _ _ (allPD_head ha).np (allPD_tail ha) hw
-            · hrefl
+            · mrefl
           · split
             · split
               · rename_i g rest
                 exact ihc _ _ _ _ (allPD_head ha).np (allPD_tail ha) hw
-              · hrefl
-            · hrefl
-      · hrefl
-      · hrefl
+              · mrefl
+            · mrefl
+      · mrefl
+      · mrefl
     · intro kind g src acc k w hkind hg hsrc hacc hw
       unfold iterNext
       split
@@ -371,18 +442,18 @@ theorem call_hp (hb : ∀ n, Pb n → n ∉ mutatorNames) : ∀ (fuel : Nat),
         | filter => exact hitem
         | sortKeys a b c => exact hitem
       · split
-        · exact alloc_hp w _
-        · exact alloc_hp w _
-        · hrefl
-        · exact sortFinish_hp _ _ _ _ _ _
+        · exact HStep.toM (alloc_hp w _)
+        · exact HStep.toM (alloc_hp w _)
+        · mrefl
+        · exact HStep.toM (sortFinish_hp _ _ _ _ _ _)
 
-theorem doCall_hp (hok : OpsOK Pc Pb Po Pn Psh) (hb : ∀ n, Pb n → n ∉ mutatorNames) (n : Name) (hn : Pn n) (args : List Val)
-    (vmi : Nat) (k : List Frame) (w : World) (ha : AllPD args) (hw : WorldPD w) : HStep w (doCall n args vmi k w).w := by
+theorem doCall_hp (hok : OpsOK Pc Pb Po Pn Psh) (hb : PureOK) (n : Name) (hn : Pn n) (args : List Val)
+    (vmi : Nat) (k : List Frame) (w : World) (ha : AllPD args) (hw : WorldPD w) : HStepM M w (doCall n args vmi k w).w := by
   unfold doCall
   split
-  · hrefl
+  · mrefl
   · split
-    · hrefl
+    · mrefl
     · rename_i f hl
       exact (call_hp hb callFuel).1 _ _ _ _ (lookupName_np hw.np.heap _ _ _ (hok.builtin n hn) hl) ha hw
 
@@ -411,25 +482,25 @@ theorem applyBin_hp {w : World} {bk : BinK} {a b r : Val} {w' : World} (h : appl
     split at h
     · split at h <;> simp [U] at h
     · split at h
-      · rw [map_w h]; hrefl
+      · rw [map_w h]; mrefl
       · simp [U] at h
   case pow =>
     split at h
     · cases h
     · split at h
       · cases h
-      · rw [map_w h]; hrefl
+      · rw [map_w h]; mrefl
   case and => simp [U] at h
   case or => simp [U] at h
-  all_goals (rw [map_w h]; hrefl)
+  all_goals (rw [map_w h]; mrefl)
 
-theorem enter_hp (hok : OpsOK Pc Pb Po Pn Psh) (hb : ∀ n, Pb n → n ∉ mutatorNames) (op : Op) (vmi : Nat) (k : List Frame)
-    (w : World) (hw : WorldPD w) (ho : Po op) : HStep w (enter op vmi k w).w := by
+theorem enter_hp (hok : OpsOK Pc Pb Po Pn Psh) (hb : PureOK) (op : Op) (vmi : Nat) (k : List Frame)
+    (w : World) (hw : WorldPD w) (ho : Po op) : HStepM M w (enter op vmi k w).w := by
   unfold enter
   split
   case h_15 n => exact doCall_hp hok hb _ (hok.call _ _ ho).1 _ _ _ _ allPD_nil hw
-  case h_17 => exact alloc_hp w _
-  all_goals first | hrefl | (split <;> first | hrefl | (split <;> hrefl))
+  case h_17 => exact HStep.toM (alloc_hp w _)
+  all_goals first | mrefl | (split <;> first | mrefl | (split <;> mrefl))
 
 /-- a top-level or lambda-local assignment writes into the top scope dictionary and nowhere else -/
 theorem writeTop_hp {w : World} {h' h'' : Heap} {vm : VM} {vmi : Nat} (hv : w.vm? vmi = some vm) (hx : HeapExt w.heap h')
@@ -455,55 +526,55 @@ theorem writeTop_hp {w : World} {h' h'' : Heap} {vm : VM} {vmi : Nat} (hv : w.vm
         exact hx.1
     · cases hwt
 
-theorem resume_hp (hok : OpsOK Pc Pb Po Pn Psh) (hb : ∀ n, Pb n → n ∉ mutatorNames) (hsh : ¬ Psh) (fr : Frame) (v : Val)
-    (k : List Frame) (w : World) (hfr : FrameP PD fr) (hv : PD v) (hw : WorldPD w) : HStep w (resume fr v k w).w := by
+theorem resume_hp (hok : OpsOK Pc Pb Po Pn Psh) (hb : PureOK) (hsh : InplOK) (fr : Frame) (v : Val)
+    (k : List Frame) (w : World) (hfr : FrameP PD fr) (hv : PD v) (hw : WorldPD w) : HStepM M w (resume fr v k w).w := by
   cases fr with
-  | codeK rest vm => cases rest <;> hrefl
+  | codeK rest vm => cases rest <;> mrefl
   | binL bk b vm =>
     unfold resume
-    cases bk <;> simp only [] <;> first | hrefl | (split <;> hrefl)
+    cases bk <;> simp only [] <;> first | mrefl | (split <;> mrefl)
   | binR bk va =>
     unfold resume
     simp only []
     split
     · rename_i r w' happ
-      exact applyBin_hp happ
-    · hrefl
+      exact HStep.toM (applyBin_hp happ)
+    · mrefl
   | unK uk =>
     unfold resume
     simp only []
-    split <;> hrefl
+    split <;> mrefl
   | assignK n vm =>
     unfold resume
     simp only []
     split
-    · hrefl
+    · mrefl
     · rename_i v' h' hd
       split
-      · hrefl
+      · mrefl
       · rename_i vmv hvm
         split
         · rename_i h'' hwt
-          exact writeTop_hp hvm (SqProps.C12.deepcopy'_frame _ _ _ _ hd) hwt
-        · hrefl
-  | shortK n sk vm => exact absurd hfr.1 hsh
+          exact HStep.toM (writeTop_hp hvm (SqProps.C12.deepcopy'_frame _ _ _ _ hd) hwt)
+        · mrefl
+  | shortK n sk vm => exact hsh _ _ _ _ _ _ hfr hv hw
   | ifK a b vm =>
     unfold resume
     simp only []
-    split <;> hrefl
+    split <;> mrefl
   | sliceK done todo vm =>
     unfold resume
     simp only []
     split
-    · hrefl
+    · mrefl
     · split
-      · hrefl
-      · split <;> hrefl
+      · mrefl
+      · split <;> mrefl
   | argsK n done todo vm =>
     unfold resume
     simp only []
     split
-    · hrefl
+    · mrefl
     · obtain ⟨hd, hn, ht⟩ := hfr
       refine doCall_hp hok hb _ hn _ _ _ _ ?_ hw
       intro x hx
@@ -514,17 +585,17 @@ theorem resume_hp (hok : OpsOK Pc Pb Po Pn Psh) (hb : ∀ n, Pb n → n ∉ muta
     unfold resume
     simp only []
     split
-    · hrefl
+    · mrefl
     · split
-      · hrefl
-      · exact alloc_hp w _
+      · mrefl
+      · exact HStep.toM (alloc_hp w _)
   | popScopeK vm =>
     unfold resume
     simp only []
     split
-    · hrefl
+    · mrefl
     · rename_i vmv hvm
-      refine hp_setVM _ _ ?_
+      refine HStep.toM (hp_setVM _ _ ?_)
       intro a ha
       exact Or.inl (mem_scopesOf.mpr ⟨vmv, vm_mem hvm, List.mem_of_mem_tail ha⟩)
   | iterK kind g src cur acc =>
@@ -541,30 +612,30 @@ theorem resume_hp (hok : OpsOK Pc Pb Po Pn Psh) (hb : ∀ n, Pb n → n ∉ muta
       · exact h5
     | reduce => exact allPD_cons hv allPD_nil
     | sortKeys a b c => exact allPD_cons hv h5
-  | tryK => hrefl
+  | tryK => mrefl
   | astK n rest main vm =>
     unfold resume
     simp only []
     split
-    · hrefl
+    · mrefl
     · rename_i vmv hvm
       split
-      · hrefl
+      · mrefl
       · rename_i h' hwt
         have := writeTop_hp hvm (SqProps.C13.HeapExt.refl w.heap) hwt
-        split <;> exact this
+        split <;> exact HStep.toM this
 
-theorem unwind_hp (fr : Frame) (e : PyErr) (k : List Frame) (w : World) : HStep w (unwind fr e k w).w := by
+theorem unwind_hp (fr : Frame) (e : PyErr) (k : List Frame) (w : World) : HStepM M w (unwind fr e k w).w := by
   unfold unwind
   split
   · split
-    · hrefl
+    · mrefl
     · rename_i vmv hvm
-      refine hp_setVM _ _ ?_
+      refine HStep.toM (hp_setVM _ _ ?_)
       intro a ha
       exact Or.inl (mem_scopesOf.mpr ⟨vmv, vm_mem hvm, List.mem_of_mem_tail ha⟩)
-  · split <;> hrefl
-  · hrefl
+  · split <;> mrefl
+  · mrefl
 
 theorem charge_hp {w : World} {budgets : List Nat} {vmi : Nat} {w' : World} {lim : Option Nat}
     (h : charge w budgets vmi = some (w', lim)) : HStep w w' := by
@@ -614,30 +685,64 @@ theorem HStep.after_charge {w w' w'' : World} {budgets : List Nat} {vmi : Nat} {
     · have := h2.size; rw [hheap] at this; exact this
   · cases h
 
+theorem HStepM.after_charge {w w' w'' : World} {budgets : List Nat} {vmi : Nat} {lim : Option Nat}
+    (h : charge w budgets vmi = some (w', lim)) (h2 : HStepM M w' w'') : HStepM M w w'' := by
+  unfold charge at h
+  split at h
+  · rename_i vm mx hvm _
+    injection h with h
+    injection h with h1 _
+    subst h1
+    have hheap : (w.setVM vmi { vm with ops := vm.ops + 1 }).heap = w.heap := rfl
+    have hsc : ∀ a, a ∈ scopesOf (w.setVM vmi { vm with ops := vm.ops + 1 }) → a ∈ scopesOf w := by
+      intro a ha
+      obtain ⟨v, hv, hav⟩ := mem_scopesOf.mp ha
+      simp only [World.setVM] at hv
+      rcases List.mem_or_eq_of_mem_set hv with hm | he
+      · exact mem_scopesOf.mpr ⟨v, hm, hav⟩
+      · subst he; exact mem_scopesOf.mpr ⟨vm, vm_mem hvm, hav⟩
+    have htop : ∀ a, a ∈ topsOf (w.setVM vmi { vm with ops := vm.ops + 1 }) → a ∈ topsOf w := by
+      intro a ha
+      obtain ⟨v, hv, hav⟩ := mem_topsOf.mp ha
+      simp only [World.setVM] at hv
+      rcases List.mem_or_eq_of_mem_set hv with hm | he
+      · exact mem_topsOf.mpr ⟨v, hm, hav⟩
+      · subst he; exact mem_topsOf.mpr ⟨vm, vm_mem hvm, hav⟩
+    refine ⟨?_, ?_, ?_⟩
+    · intro a ha hn hm
+      have := h2.keep a (by rw [hheap]; exact ha) (fun ht => hn (htop a ht)) hm
+      rw [this, hheap]
+    · intro a ha
+      rcases h2.scopes a ha with h | h
+      · exact Or.inl (hsc a h)
+      · exact Or.inr (by rw [hheap] at h; exact h)
+    · have := h2.size; rw [hheap] at this; exact this
+  · cases h
+
 /-- **one step**: in a configuration satisfying the invariant, with no mutator allowed as a builtin value and no compound
     assignment pending, a machine step changes no existing object other than scope dictionaries -/
-theorem step_hp (hok : OpsOK Pc Pb Po Pn Psh) (hb : ∀ n, Pb n → n ∉ mutatorNames) (hsh : ¬ Psh) (budgets : List Nat) (c : Core)
-    (hc : CorePD c) : HStep c.w (stepCore budgets c).w := by
+theorem step_hp (hok : OpsOK Pc Pb Po Pn Psh) (hb : PureOK) (hsh : InplOK) (budgets : List Nat) (c : Core)
+    (hc : CorePD c) : HStepM M c.w (stepCore budgets c).w := by
   unfold stepCore
   split
   · rename_i op vmi hctl
     split
-    · hrefl
+    · mrefl
     · rename_i w' m hch
-      exact charge_hp hch
+      exact HStep.toM (charge_hp hch)
     · rename_i w' hch
-      exact HStep.after_charge hch (enter_hp hok hb op vmi c.k w' (charge_np hc.world hch) (by have := hc.ctl; rw [hctl] at this; exact this))
+      exact HStepM.after_charge hch (enter_hp hok hb op vmi c.k w' (charge_np hc.world hch) (by have := hc.ctl; rw [hctl] at this; exact this))
   · rename_i v hctl
     have hv : PD v := by have := hc.ctl; rw [hctl] at this; exact this
     split
-    · hrefl
+    · mrefl
     · rename_i fr k hkk
       exact resume_hp hok hb hsh fr v k c.w (hc.frames fr (by rw [hkk]; simp)) hv hc.world
   · split
-    · hrefl
+    · mrefl
     · exact unwind_hp _ _ _ _
-  · hrefl
-  · hrefl
+  · mrefl
+  · mrefl
 
 /-- **whole runs**: along any number of steps from a configuration satisfying the invariant -/
 theorem run_hp (hok : OpsOK Pc Pb Po Pn Psh) (hq : ∀ q, Pq q) (hb : ∀ n, Pb n → n ∉ mutatorNames) (hsh : ¬ Psh) (c : Cfg)
@@ -648,7 +753,7 @@ theorem run_hp (hok : OpsOK Pc Pb Po Pn Psh) (hq : ∀ q, Pq q) (hb : ∀ n, Pb 
   | succ i ih =>
     rw [run_succ_right]
     have hinv := inv_run hok hq c h0 i
-    exact ih.trans (step_hp hok hb hsh _ _ (core_pd hq hinv)).toHPres
+    exact ih.trans (step_hp (M := fun _ => False) hok (pureOK_of_nonmut hb) (inplOK_of_not hsh) _ _ (core_pd hq hinv)).toHStep.toHPres
 
 /-- **a covered scope dictionary cannot change**: as long as `a` is not the TOP scope of any VM state (a lambda call's own
     scope lies above it), no step changes the object at `a` — whatever the call assigns, compound-free and mutator-free -/
@@ -662,7 +767,7 @@ theorem covered_scope_unchanged (hok : OpsOK Pc Pb Po Pn Psh) (hq : ∀ q, Pq q)
     intro hcov
     rw [run_succ_right]
     have hinv := inv_run hok hq c h0 n
-    have hstep := step_hp hok hb hsh (run n c).budgets (run n c).core (core_pd hq hinv)
+    have hstep := (step_hp (M := fun _ => False) hok (pureOK_of_nonmut hb) (inplOK_of_not hsh) (run n c).budgets (run n c).core (core_pd hq hinv)).toHStep
     have hsz := (run_hp hok hq hb hsh c h0 n).size
     have := hstep.keep a (Nat.lt_of_lt_of_le ha hsz) (hcov n (Nat.lt_succ_self n))
     exact this.trans (ih (fun i hi => hcov i (Nat.lt_succ_of_lt hi)))
